@@ -15,7 +15,10 @@ LEVEL = "proof"
 MODULE = "Sqfs.Props.C10"
 REQUIRED = ["Sqfs.C10.coherent_init", "Sqfs.C10.coherent_seek", "Sqfs.C10.coherent_read", "Sqfs.C10.coherent_run",
             "Sqfs.C10.meta_history_independent", "Sqfs.C10.meta_answer_depends_on_image_and_query_only",
-            "Sqfs.C10.read_no_crash", "Sqfs.C10.failed_miss_unpositions", "Sqfs.C10.toyUnc_ok"]
+            "Sqfs.C10.read_no_crash", "Sqfs.C10.failed_miss_unpositions", "Sqfs.C10.toyUnc_ok",
+            "Sqfs.C10.seek_then_position", "Sqfs.C10.ool_position_restored",
+            "Sqfs.C10.data_coherent_init", "Sqfs.C10.data_coherent_read", "Sqfs.C10.data_read_eq_cacheless",
+            "Sqfs.C10.data_history_independent_written", "Sqfs.C10.data_history_independent_repaired"]
 
 KEY_D2 = "C10:D2:meta-seek-failed-load-keeps-old-tag"
 KEY_D3 = "C10:D3:meta-read-after-failed-seek-underflow"
@@ -198,7 +201,7 @@ def data_block(rng, bs):
 
 def gen_data_episode(rng, nops):
     bs = rng.choice([8, 16, 16, 32, 64, 300])
-    img = bytearray(bytes(rng.randrange(256) for _ in range(rng.randint(0, 20))))
+    img = bytearray(bytes(rng.randrange(256) for _ in range(rng.choice([0, 0, rng.randint(1, 20)]))))
     chain = []
     for _ in range(rng.randint(3, 14)):
         raw, word, kind = data_block(rng, bs)
@@ -583,7 +586,7 @@ def build_patched_harness(ctx):
 
 def run_image_part(ctx, harness, counts):
     gen = ctx.build_tool("gensquashfs")
-    nimg = 3 if ctx.quick() else 20
+    nimg = 3 if ctx.quick() else 40
     nvalid, ndmg, nops = (1, 3, 150) if ctx.quick() else (2, 8, 400)
     eps, stats = [], {"images": 0, "episodes": 0, "ops": 0, "hist_ne_fresh_lines": 0, "unopenable_damaged": 0, "cat_checked": 0,
                       "by_comp": {}, "explained_by_repair": 0}
@@ -688,14 +691,14 @@ def run(ctx):
     harness = build_harness(ctx)
     eps = corpus_episodes()
     ncorpus = len(eps)
-    nep = 60 if ctx.quick() else 900
+    nep = 80 if ctx.quick() else 3000
     nops = 120 if ctx.quick() else 200
     metas = []
     for i in range(nep):
         lines, meta = gen_episode(ctx.rng, nops)
         eps.append(("gen/%d" % i, lines))
         metas.append(meta)
-    ndep = 40 if ctx.quick() else 600
+    ndep = 60 if ctx.quick() else 2000
     for i in range(ndep):
         lines, meta = gen_data_episode(ctx.rng, 60 if ctx.quick() else 100)
         eps.append(("data/%d" % i, lines))
